@@ -23,6 +23,7 @@ RULE = (
     "undef values x outside_value in {None, -1, 0.0, 5}; non-trivial = position strictly inside a cell (a,b) or a mask with 1..8 masked nodes / an outside "
     "position (c); lattice points distinct by construction"
 )
+RULE += " Beyond the lattice (chosen scenarios, not enumerated): grids 1600 cells wide / 1500 cells tall."
 ASSUMPTIONS = ["conformal grids from a spherical polar-stereographic projection", "round trip required to the solver's own tolerance (squared residual 1e-7 deg^2)"]
 
 R_EARTH = 6371000.0
